@@ -42,8 +42,11 @@ ASSUMPTIONS = [
     'failure keeps the generic kind, so the two can be told apart; one violation per (site, kind) per case, worst offender kept',
 ]
 BOUND = {
-    'quick': '3 frames x {(1 m, b2 in mm), (10 mm, b2 in m)} x 17 tilts x |g| in {1e-30, 9.81, 100} x one L2 of {0.1, 5, 100} m each',
-    'thorough': '3 frames x |b1| {1, 10} x units {m, mm}^2 x 17 tilts x |g| {1e-30, 1e-11, 1, 9.81, 100} x {m/s^2, mm/s^2} x L2 {0.1, 5, 100} m',
+    'quick': '3 frames x {(1 m, b2 in mm), (10 mm, b2 in m)} x 17 tilts x |g| in {1e-30, 9.81, 100} x one L2 of {0.1, 5, 100} m each; 14 detectors x 6 wavelengths',
+    'thorough': '3 frames x |b1| {1, 10} x units {m, mm}^2 x 23 tilts (s in {0, 1e-12, 0.9e-10, 1.1e-10, 1e-9, 1e-8, 1e-6, 1e-4, 1e-3}, tau in '
+                '{0.3, 1, 1.5} rad, both signs) x |g| {1e-30, 1e-11, 1, 9.81, 100} x {m/s^2, mm/s^2} x L2 {0.1, 5, 100} m; inside 20 detector '
+                'directions (incl. nearly forward / backward / sideways) x 9 wavelengths {0, 1e-3, 0.1, 1, 1.8, 6, 20, 50, 100} angstrom x 4 layouts x '
+                '{float64, float32} + int64 wavelengths (dense 1-d and binned)',
 }
 REQUIRED_CLASSES = [
     'generic_path', 'orthogonal_path', 'tilt_just_below_threshold', 'tilt_just_above_threshold',
@@ -59,25 +62,34 @@ S_TILTS = (0.0, 1e-12, 0.9e-10, 1.1e-10, 1e-9, 1e-6, 1e-3)
 TAU_TILTS = (0.3, 1.0)
 G_MAGS = (9.81, 1e-30, 100.0, 1e-11, 1.0)
 L2S = (5.0, 0.1, 100.0)
-LAMBDAS = tuple(float(np.float32(x)) for x in (0.0, 1e-3, 1.8, 6.0, 20.0, 100.0))
+LAMBDAS_QUICK = tuple(float(np.float32(x)) for x in (0.0, 1e-3, 1.8, 6.0, 20.0, 100.0))
+# thorough tier: every decade 1e-3..100 angstrom (0.01 left to C08), 50, and six integer values for the int64 runs
+LAMBDAS_DEEP = (*LAMBDAS_QUICK, *(float(np.float32(x)) for x in (0.1, 1.0, 50.0)))
+LAMBDAS = LAMBDAS_QUICK  # rebound per case by run_case (quick / deep alphabet)
 _D = [
     (0, 1, 0), (0, -1, 0), (1, 0, 0), (-1, 0, 0), (0, 0, 1), (0, 0, -1), (0, 1, 1), (0, -1, 1),
     (1, 0, 1), (-1, 0, -1), (1, 1, 1), (-1, 1, -1), (1, -1, 1), (0.3, 0.2, 0.9),
 ]
-DETS = [gc.unit_dir(tuple(float(c) for c in d)) for d in _D]
+DETS_QUICK = [gc.unit_dir(tuple(float(c) for c in d)) for d in _D]
+# thorough tier: nearly forward / backward / sideways detectors (phi and gamma ill-conditioned or nearly so) and two generic ones
+_D_DEEP = [(1e-3, 1e-3, 1), (0, 1e-6, 1), (0, -1e-3, -1), (1, 1e-3, 0), (-0.6, 0.64, 0.48), (0.5, -0.5, -0.7071)]
+DETS_DEEP = [*DETS_QUICK, *(gc.unit_dir(tuple(float(c) for c in d)) for d in _D_DEEP)]
+DETS = DETS_QUICK  # rebound per case by run_case
+S_TILTS_DEEP = (*S_TILTS, 1e-8, 1e-4)
+TAU_TILTS_DEEP = (*TAU_TILTS, 1.5)
 LEN_F = {'m': 1.0, 'mm': 1000.0}
 CUBE_FRAME = ((1, 1), (2, 1), (0, 1))  # (x, y, z) -> (y, z, x), exact
-BASE_TOL = {'float64': 1e-12, 'float32': 2e-6}
-EPS = {'float64': 2.0**-52, 'float32': 2.0**-23}
+BASE_TOL = {'float64': 1e-12, 'float32': 2e-6, 'int64': 1e-12}
+EPS = {'float64': 2.0**-52, 'float32': 2.0**-23, 'int64': 2.0**-52}
 # below this fraction of L2 a length is lost to underflow of intermediate products (only reached with |g| = 1e-30)
-FLOOR = {'float64': 1e-250, 'float32': 1e-25}
+FLOOR = {'float64': 1e-250, 'float32': 1e-25, 'int64': 1e-250}
 
 
-def _tilts():
+def _tilts(deep=False):
     out = [{'s': 0.0}]
-    for s in S_TILTS[1:]:
+    for s in (S_TILTS_DEEP if deep else S_TILTS)[1:]:
         out += [{'s': s}, {'s': -s}]
-    for t in TAU_TILTS:
+    for t in TAU_TILTS_DEEP if deep else TAU_TILTS:
         out += [{'tau': t}, {'tau': -t}]
     return out
 
@@ -101,13 +113,13 @@ def cases(tier):
                     for g in G_MAGS:
                         for gu in ('m/s^2', 'mm/s^2'):
                             for L2 in L2S:
-                                for tilt in _tilts():
-                                    out.append({'kind': 'angles', 'frame': frame, 'L': L, 'u1': u1, 'u2': u2, 'tilt': tilt, 'g': g, 'gu': gu, 'L2': L2})
+                                for tilt in _tilts(deep=True):
+                                    out.append({'kind': 'angles', 'deep': True, 'frame': frame, 'L': L, 'u1': u1, 'u2': u2, 'tilt': tilt, 'g': g, 'gu': gu, 'L2': L2})
     for frame in range(3):
         for u1 in ('m', 'mm'):
             for g in (9.81, 1e-30):
                 for L2 in L2S:
-                    out.append({'kind': 'mixed', 'frame': frame, 'L': 1.0, 'u1': u1, 'u2': 'm', 'g': g, 'gu': 'm/s^2', 'L2': L2})
+                    out.append({'kind': 'mixed', 'deep': True, 'frame': frame, 'L': 1.0, 'u1': u1, 'u2': 'm', 'g': g, 'gu': 'm/s^2', 'L2': L2})
     return out
 
 
@@ -138,15 +150,22 @@ def _si(v, unit):
 Worst = gc.Worst
 
 
+def _lam_idx(dtype):
+    """Indices of the wavelength alphabet used with this dtype (int64: the integer-valued ones)."""
+    if dtype == 'int64':
+        return [i for i, x in enumerate(LAMBDAS) if float(x).is_integer()]
+    return list(range(len(LAMBDAS)))
+
+
 def _wavelength(layout, dtype, ndet):
-    """Returns (variable, index function (i_lambda, k_det) -> position or None)."""
-    lam = np.asarray(LAMBDAS, dtype=dtype)
+    """Returns (variable, per-bin event counts or None)."""
+    lam = np.asarray([LAMBDAS[i] for i in _lam_idx(dtype)], dtype=dtype)
     if layout == 'dense1d':
         return sc.array(dims=['wavelength'], values=lam, unit='angstrom', dtype=dtype), None
     if layout == 'dense2d':
         return sc.array(dims=['det', 'wavelength'], values=np.tile(lam, (ndet, 1)), unit='angstrom', dtype=dtype), None
     if layout == 'binned':
-        counts = [len(LAMBDAS) - (k % 7) for k in range(ndet)]  # 6,5,...,1,0,6,...
+        counts = [len(lam) - (k % (len(lam) + 1)) for k in range(ndet)]  # n, n-1, ..., 1, 0, n, ...
         flat = np.concatenate([lam[:c] for c in counts]) if sum(counts) else lam[:0]
         begin = np.cumsum([0, *counts[:-1]])
         data = sc.array(dims=['event'], values=flat, unit='angstrom', dtype=dtype)
@@ -156,21 +175,23 @@ def _wavelength(layout, dtype, ndet):
     raise ValueError(layout)
 
 
-def _extract(res, layout, counts, nlam, ndet):
-    """-> dict (i, k) -> float value for every element present."""
+def _extract(res, layout, counts, nlam, ndet, idx=None):
+    """-> dict (i, k) -> float value for every element present; idx maps the position in the wavelength array to the
+    index i in LAMBDAS (default: identity)."""
+    idx = list(range(nlam)) if idx is None else idx
     out = {}
     if layout == 'binned':
         flat = res.bins.constituents['data'].values
         pos = 0
         for k in range(ndet):
             for i in range(counts[k]):
-                out[(i, k)] = float(flat[pos])
+                out[(idx[i], k)] = float(flat[pos])
                 pos += 1
         return out
     vals = res.transpose(['wavelength', 'det']).values
-    for i in range(nlam):
+    for i in range(len(idx)):
         for k in range(ndet):
-            out[(i, k)] = float(vals[i][k])
+            out[(idx[i], k)] = float(vals[i][k])
     return out
 
 
@@ -267,6 +288,8 @@ def _call_angles(b1v, b2v, lamv, gv):
 
 
 def run_case(case, rec):
+    global LAMBDAS, DETS  # noqa: PLW0603 - the alphabet of the tier this case belongs to; set before anything else runs
+    LAMBDAS, DETS = (LAMBDAS_DEEP, DETS_DEEP) if case.get('deep') else (LAMBDAS_QUICK, DETS_QUICK)
     if case['kind'] == 'mixed':
         return _run_mixed(case, rec)
     frame, L, u1, u2, L2 = case['frame'], case['L'], case['u1'], case['u2'], case['L2']
@@ -299,8 +322,11 @@ def run_case(case, rec):
     b1v, gv = gc.vec(b1, u1), gc.vec(gvec, case['gu'])
     b2v = gc.vecs(b2s, u2, dim='det')
     results64 = None
-    for dtype in ('float64', 'float32'):
+    for dtype in ('float64', 'float32', 'int64') if case.get('deep') else ('float64', 'float32'):
+        idx = _lam_idx(dtype)
         for layout in ('scalar', 'dense1d', 'dense2d', 'binned'):
+            if dtype == 'int64' and layout in ('scalar', 'dense2d'):
+                continue
             rec.cls('layout_' + layout)
             rec.cls('dtype_' + dtype)
             if layout == 'scalar':
@@ -326,11 +352,11 @@ def run_case(case, rec):
                 tt, ph = _call_angles(b1v, b2v, lamv, gv)
                 rec.transitions += 2
                 _check_units(rec, tt, ph)
-                got_tt = _extract(tt, layout, counts, nl, nd)
-                got_phi = _extract(ph, layout, counts, nl, nd)
+                got_tt = _extract(tt, layout, counts, nl, nd, idx)
+                got_phi = _extract(ph, layout, counts, nl, nd, idx)
                 try:
                     yz = bl.scattering_angle_in_yz_plane(incident_beam=b1v, scattered_beam=b2v, wavelength=lamv, gravity=gv)
-                    got_yz = _extract(yz, layout, counts, nl, nd)
+                    got_yz = _extract(yz, layout, counts, nl, nd, idx)
                     raised = False
                     if _elem_unit(yz) != sc.Unit('rad'):
                         W.add(SITE_YZ, 'wrong_unit', 1.0, f'unit {_elem_unit(yz)}')
@@ -457,3 +483,8 @@ def run_case(case, rec):
         _layouts.run_layout_case(case, rec)
     else:
         _run_case_main(case, rec)
+
+
+RULE = RULE + (' Thorough tier: 23 tilts, 20 detector directions, 9 wavelengths (see BOUND) and int64 wavelengths at the integer-valued '
+               'wavelengths {0, 1, 6, 20, 50, 100} angstrom.')
+REQUIRED_CLASSES = {'quick': list(REQUIRED_CLASSES), 'thorough': [*REQUIRED_CLASSES, 'dtype_int64']}
